@@ -11,7 +11,8 @@
 
   NOT provable here (exhibited by `harness/props/c17.py` on the real code and on the `Float` model):
   IEEE overflow / underflow (e.g. a soft-bin membership `exp(-800)` IS `0.0` in doubles although it is positive in ℝ:
-  theorem `douglas_divisors_pos` holds over ℝ and fails in floating point — that is defect F-Douglas of the harness),
+  theorem `douglas_divisors_pos` holds over ℝ and fails in floating point — the harness found exactly that: the original
+  `Douglas._compute_grads` divided by the memberships and produced `0/0`; /repo commit 62053a1 removed the division),
   numpy broadcasting after `np.squeeze` when `n = 1` or `K = 1`, and the unguarded `a_s / norm_v` of `mlp_prox_grad`
   (C05 owns it: a zero row of `W_skip_` divides by zero and the result is saved by `np.maximum(-inf, 0)`).
 -/
@@ -126,10 +127,13 @@ theorem hier_prox_denominator_pos (s : ℕ) (M : ℝ) : 0 < 1 + (RealLike.nat s 
   have : (0 : ℝ) ≤ (s : ℝ) * (M * M) := mul_nonneg (Nat.cast_nonneg s) (mul_self_nonneg M)
   simp only [RealLike.nat_real]; linarith
 
-/-- `Douglas`: over ℝ every soft-bin membership `softmax(logits / temperature)[j]` — the divisor of
-    `binning_backprop.sum(...) / self._all_binnings[i]` in `_compute_grads` — is strictly positive, and the temperature
-    (validated `> 0`) is a non-zero divisor.  In IEEE arithmetic the membership underflows to `0.0` as soon as two
-    logits differ by more than `745·temperature`: the statement is exactly what floating point breaks. -/
+/-- `Douglas`: the temperature (validated `> 0`) is a non-zero divisor of `logits / self.temperature` and
+    `bin_grad /= self.temperature`; and over ℝ every soft-bin membership `softmax(logits / temperature)[j]` is strictly
+    positive.  The original `_compute_grads` divided by these memberships
+    (`binning_backprop.sum(...) / self._all_binnings[i]`, still the form of `Model/Douglas.lean computeGrads`): defined
+    over ℝ by this theorem, but in IEEE arithmetic a membership underflows to `0.0` as soon as two logits differ by more
+    than `745·temperature`, giving `0/0` — the statement is exactly what floating point breaks (fixed in /repo 62053a1 by
+    the algebraically equal division-free form). -/
 theorem douglas_divisors_pos {T : ℝ} (hT : 0 < T) (x : ℝ) (cuts : List ℝ) (j : ℕ) (hj : j ≤ cuts.length) :
     T ≠ 0 ∧ 0 < (Douglas.binning T x cuts).getD j 0 := by
   refine ⟨hT.ne', ?_⟩
